@@ -2,7 +2,8 @@
 real library and report, at the steps marked ``q``, what every live instance and every class
 answers to the four query forms and to directlyProvidedBy.
 
-case = {"ifaces": [[base ids], ...], "ops": [{"op": name, ..., "q": bool}, ...]}
+case = {"ifaces": [[base ids], ...], "metas": [{"bases": [meta ids], "l": [iface ids], "call": bool}],
+        "ops": [{"op": name, ..., "q": bool, "qp": bool}, ...]}   (NewClass: "m" = metaclass id or None)
 obs  = {"steps": [{"exc": 0|1|2, "excname": str, "q": None | {"inst": [[o, pb, ipb, dpb]],
                                                         "cls": [[c, ib, iib, cpb, cipb, cdpb]]}}]}
 Sets are bit masks over interface numbers (``Interface`` itself is left out), lists are
@@ -23,6 +24,14 @@ class World:
             bs = tuple(self.ifaces[b] for b in bases) or (Interface,)
             self.ifaces.append(InterfaceClass("I%d" % i, bs, {}, __module__="c01case"))
         self.index = {id(x): i for i, x in enumerate(self.ifaces)}
+        # metaclasses (fixed during the history): a hierarchy below ``type``, each implementing
+        # some interfaces; "call" says whether implementer(...) is applied at all
+        self.metas = []
+        for k, m in enumerate(case.get("metas", [])):
+            M = type("M%d" % k, tuple(self.metas[b] for b in m["bases"]) or (type,), {"__module__": "c01case"})
+            if m.get("call", True):
+                implementer(*[self.ifaces[i] for i in m["l"]])(M)
+            self.metas.append(M)
         self.classes = []
         self.objs = {}
         self.nobj = 0
@@ -47,7 +56,11 @@ class World:
         I = self.ifaces
         if k == "NewClass":
             bases = tuple(self.classes[b] for b in op["bases"]) or (object,)
-            self.classes.append(type("C%d" % len(self.classes), bases, {"__module__": "c01case"}))
+            name = "C%d" % len(self.classes)
+            if op.get("m") is None:
+                self.classes.append(type(name, bases, {"__module__": "c01case"}))
+            else:
+                self.classes.append(self.metas[op["m"]](name, bases, {"__module__": "c01case"}))
         elif k == "NewInstance":
             self.objs[self.nobj] = self.classes[op["c"]]()
             self.nobj += 1
@@ -74,6 +87,12 @@ class World:
             provider(*[I[i] for i in op["l"]])(self.target(op["t"]))
         else:
             raise KeyError(k)
+
+    def query_class_objects(self):
+        """the class objects alone; nothing here computes implementedBy(C)"""
+        I = self.ifaces
+        return [[c, self.mask(providedBy(C).flattened()), self.mask(i for i in I if i.providedBy(C)),
+                 [self.num(i) for i in directlyProvidedBy(C)]] for c, C in enumerate(self.classes)]
 
     def query(self):
         I = self.ifaces
@@ -104,6 +123,12 @@ def run_case(case):
             exc, name = 1, "ValueError"
         except Exception as e:  # reported as data
             exc, name = 2, type(e).__name__
+        cp = None
+        if op.get("qp") and exc != 2:
+            try:
+                cp = w.query_class_objects()
+            except Exception as e:
+                exc, name = 2, "query:" + type(e).__name__
         q = None
         if op.get("q"):
             try:
@@ -111,7 +136,7 @@ def run_case(case):
             except Exception as e:
                 exc, name = 2, "query:" + type(e).__name__
                 q = {"inst": [], "cls": []}
-        steps.append({"exc": exc, "excname": name, "q": q})
+        steps.append({"exc": exc, "excname": name, "q": q, "cp": cp})
     return {"steps": steps}
 
 
